@@ -21,6 +21,7 @@ from mc.core import Acc, Scratch, Violation, classify_exception, worker_scratch
 from mc.ref.pepxml import DEFAULT, DIMS, NEGATIVES, build, negative
 
 PROPERTY = "C20"
+SIZE_MODULES = ['mokapot.parsers.pepxml']  # see mc.runner._sized_passes
 LEVEL = "exploration"
 RULE = (
     "positive case = set of at most k deviations (dimension, value) from the default document, at most "
